@@ -147,6 +147,15 @@ Theorem C14_rsa_exponent_truncation_rejected :
 Proof. exact rsa_exponent_truncation_rejected. Qed.
 Print Assumptions C14_rsa_exponent_truncation_rejected.
 
+(* Model adequacy: the fuel that makes the wire decoder structurally recursive
+   (the input length) is never what stops it - any larger fuel gives the same
+   answer, for top-level fields and for skipped groups. *)
+Theorem C14_decoder_fuel_adequate :
+  (forall f b, (length b <= f)%nat -> fields_aux f b = fields b)
+  /\ (forall f st b, (length b < f)%nat -> skip_groups f st b = skip_groups (S (length b)) st b).
+Proof. split; [exact fields_fuel_adequate|exact skip_groups_fuel_adequate]. Qed.
+Print Assumptions C14_decoder_fuel_adequate.
+
 (* Non-vacuity: a two-key keyset (a 16-byte AES-GCM key, TINK, id 5, primary;
    an unknown key type, RAW, id 9, disabled), serialized by hand, is read into
    the expected handle, and the first key is usable and strong. *)
